@@ -191,7 +191,7 @@ func envRetry(mk func() error) error {
 	}
 }
 
-var envWaits int
+var envWaits, hung int
 
 func newW(capEv uint) (w *fsnotify.Watcher, err error) {
 	err = envRetry(func() error {
@@ -903,6 +903,138 @@ func absorb(rng *rand.Rand, sz uint) {
 	p.w.Close()
 }
 
+// lateErrorsConsumer: the overflow report waits for its consumer.  Events were lost in the kernel queue; whoever starts
+// receiving from Errors later — after working through Events first, or after a pause — still gets ErrEventOverflow, and
+// the notifications queued behind the overflow record are delivered after it.
+func lateErrorsConsumer(rng *rand.Rand, capEv uint, pause time.Duration, eventsFirst bool) {
+	dir, _ := os.MkdirTemp("", "vconc")
+	defer os.RemoveAll(dir)
+	p, err := newPiped(capEv)
+	if err != nil {
+		return
+	}
+	defer p.shutdown()
+	p.w.Add(dir)
+	scen("late-errors-consumer cap=%d pause=%v events-first=%v", capEv, pause, eventsFirst)
+	before := 1 + rng.Intn(3)
+	var dg []byte
+	for i := 0; i < before; i++ {
+		dg = append(dg, rec(1, unix.IN_CREATE, 0, fmt.Sprintf("b%d", i))...)
+	}
+	dg = append(dg, rec(-1, unix.IN_Q_OVERFLOW, 0, "")...)
+	dg = append(dg, rec(1, unix.IN_CREATE, 0, "after0")...)
+	dg = append(dg, rec(1, unix.IN_CREATE, 0, "after1")...)
+	unix.Write(p.sock, dg)
+	var evs []string
+	gotOverflow := false
+	takeEvents := func(k int) {
+		for i := 0; i < k; i++ {
+			select {
+			case e := <-p.w.Events:
+				evs = append(evs, filepath.Base(e.Name))
+			case <-time.After(watchdog / 2):
+				return
+			}
+		}
+	}
+	if eventsFirst {
+		takeEvents(before) // the handler works through the events it can get before it looks at Errors
+	}
+	time.Sleep(pause)
+	deadline := time.After(watchdog)
+loop:
+	for len(evs) < before+2 || !gotOverflow {
+		select {
+		case e := <-p.w.Events:
+			evs = append(evs, filepath.Base(e.Name))
+		case err := <-p.w.Errors:
+			if errors.Is(err, fsnotify.ErrEventOverflow) {
+				gotOverflow = true
+			}
+		case <-deadline:
+			break loop
+		}
+	}
+	if !gotOverflow {
+		fail("C10", "overflow-report-lost", "cap=%d pause=%v events-first=%v: events were lost in the kernel queue and ErrEventOverflow never arrived on Errors (events received: %v)", capEv, pause, eventsFirst, evs)
+	}
+	if len(evs) != before+2 {
+		fail("C10", "events-behind-overflow-lost", "cap=%d pause=%v: got %v", capEv, pause, evs)
+	}
+	if !withTimeout(func() { p.w.Close() }) {
+		fail("C05", "close-blocked", "after late errors consumer")
+	}
+}
+
+// absorbRepeats: runs of IDENTICAL notifications (the kernel merges an event only with an identical one that is still
+// at the tail of its queue; once that one has been read, the next identical one is a notification of its own).  Every
+// one of them is delivered, whatever the buffer size and whether or not the consumer keeps up.
+func absorbRepeats(rng *rand.Rand, sz uint, lag bool) {
+	dir, _ := os.MkdirTemp("", "vconc")
+	defer os.RemoveAll(dir)
+	p, err := newPiped(sz)
+	if err != nil {
+		return
+	}
+	defer p.shutdown()
+	p.w.Add(dir)
+	scen("absorb-repeats size=%d lagging-consumer=%v", sz, lag)
+	masks := []uint32{unix.IN_MODIFY, unix.IN_ATTRIB, unix.IN_MODIFY, unix.IN_CREATE}
+	ops := map[uint32]string{unix.IN_MODIFY: "WRITE", unix.IN_ATTRIB: "CHMOD", unix.IN_CREATE: "CREATE"}
+	var want []string
+	var dgs [][]byte
+	n := 0
+	for n < int(sz)+12 && n < 400 {
+		m := masks[rng.Intn(len(masks))]
+		name := fmt.Sprintf("r%d", rng.Intn(3))
+		run := 1 + rng.Intn(5)
+		var dg []byte
+		for i := 0; i < run; i++ {
+			dg = append(dg, rec(1, m, 0, name)...)
+			want = append(want, ops[m]+" "+name)
+			n++
+			if rng.Intn(3) == 0 { // the same run split over two reads
+				dgs = append(dgs, dg)
+				dg = nil
+			}
+		}
+		if dg != nil {
+			dgs = append(dgs, dg)
+		}
+	}
+	var got []string
+	done := make(chan struct{})
+	go func() {
+		defer close(done)
+		if lag {
+			time.Sleep(30 * time.Millisecond)
+		}
+		for len(got) < len(want) {
+			select {
+			case e := <-p.w.Events:
+				got = append(got, e.Op.String()+" "+filepath.Base(e.Name))
+				if lag && rng.Intn(4) == 0 {
+					time.Sleep(time.Duration(rng.Intn(400)) * time.Microsecond)
+				}
+			case <-time.After(watchdog):
+				return
+			}
+		}
+	}()
+	for _, dg := range dgs {
+		unix.Write(p.sock, dg)
+		if rng.Intn(3) == 0 {
+			time.Sleep(time.Duration(rng.Intn(200)) * time.Microsecond)
+		}
+	}
+	<-done
+	if d := firstDiff(want, got); d >= 0 {
+		fail("C14", "identical-notifications-not-delivered-intact", "size=%d lag=%v delivered=%d of %d, first difference at %d: want %q got %q", sz, lag, len(got), len(want), d, at(want, d), at(got, d))
+		fail("C01", "identical-notifications-lost", "size=%d", sz)
+	}
+	p.w.Close()
+}
+
 // otherWatchers: the stream of one Watcher does not depend on other Watchers on the same paths being created, used, closed
 func otherWatchers(rng *rand.Rand, others int) {
 	dir, _ := os.MkdirTemp("", "vconc")
@@ -1218,9 +1350,14 @@ func guard(name string, f func()) {
 	go func() { f(); close(done) }()
 	select {
 	case <-done:
-	case <-time.After(16*watchdog + 10*time.Minute/10):
+	case <-time.After(12*watchdog + 30*time.Second):
 		fail("C05", "scenario-hung", "%s: a library call never returned (goroutines: %d readers alive)", name, fsnotifyGoroutines())
 		fail("C07", "deadlock", "%s: a library call never returned", name)
+		hung++
+		if hung >= 2 { // the verdict is established; the remaining scenarios would each wait just as long
+			fmt.Fprintf(out, "SUMMARY scenarios=%d failures=%d aborted_after_hung_scenarios=%d\n", nscen, nfail, hung)
+			os.Exit(1)
+		}
 	}
 }
 
@@ -1262,6 +1399,11 @@ func main() {
 	if has("readerr") {
 		guard("readerr", func() { readError(rng, true) })
 		guard("readerr", func() { readError(rng, false) })
+		for _, c := range []uint{0, 2, 64} {
+			c := c
+			guard("late-errors", func() { lateErrorsConsumer(rng, c, 150*time.Millisecond, false) })
+			guard("late-errors", func() { lateErrorsConsumer(rng, c, 400*time.Millisecond, true) })
+		}
 	}
 	if has("cycles") {
 		n := 300
@@ -1280,6 +1422,11 @@ func main() {
 		for _, sz := range []uint{1, 2, 8, 64, 1024} {
 			sz := sz
 			guard("absorb", func() { absorb(rng, sz) })
+		}
+		for _, sz := range []uint{0, 1, 8, 64} {
+			sz := sz
+			guard("absorb-repeats", func() { absorbRepeats(rng, sz, false) })
+			guard("absorb-repeats", func() { absorbRepeats(rng, sz, true) })
 		}
 	}
 	if has("others") {
